@@ -86,7 +86,7 @@ def run_verus_unit(unit, tier, use_cache=True):
             if f1 != f2:
                 run["frontend_errors"] = run["frontend_errors"] + [{"message": f"unstable proof: verdicts differ between rlimit settings: {f1} vs {f2}", "spans": [], "rendered": ""}]
         # vacuity guard (DESIGN 2.5): every contracted function, with `ensures false` in place of its own clauses, must fail
-        if r["status"] == "ran" and not cl["frontend_errors"]:
+        if r["status"] == "ran" and not cl["frontend_errors"] and not os.environ.get("VERIF_NO_CANARY"):  # (dev switch used by bin/seedsuite only)
             try:
                 cmeta = VU.build(unit, repo=repo_root(), canary=True)
                 cpath_gen = os.path.join(GEN, unit + "_canary.rs")
